@@ -149,6 +149,8 @@ def build_value(rec):
             v = np.zeros(size); v[:1] = 1.0
         elif fill == "basis":
             v = np.zeros(size); v[r.randint(size)] = 1.0
+        elif fill == "basis-int":                # a basis state written with integers: np.array([0, 1, 0, 0])
+            v = np.zeros(size, dtype=int); v[r.randint(size)] = 1
         elif fill == "rand":
             v = r.normal(size=size); v = v / np.linalg.norm(v)
         else:
@@ -388,6 +390,8 @@ def oracle(objs, real, family_valid):
         if not isinstance(res, dict):
             return "valid", "result is not a mapping"
         meas = facts["meas"]
+        if not all(isinstance(v, (float, int, np.floating, np.integer)) and not isinstance(v, (bool, np.bool_)) for v in res.values()):
+            return "valid", f"values are not real numbers: {[type(v).__name__ for v in res.values()][:3]}"
         vals = [float(v) for v in res.values()]
         if any(math.isnan(v) or v < -1e-15 for v in vals):
             return "valid", f"negative or NaN value: {min(vals)!r}"
@@ -461,7 +465,7 @@ def gen_valid(rng, cls, gates, n, dev, shots_max, idx):
     if rng.random() < 0.3 and ops:          # a mid-circuit position of a measure instruction (treated as terminal by the code)
         ops.insert(rng.randrange(len(ops)), mops.pop(0))
     ops += mops
-    fill = rng.choice(["basis0", "basis0", "basis", "rand", "randc"])
+    fill = rng.choice(["basis0", "basis0", "basis", "rand", "randc", "basis-int"])
     return {"family": "valid", "cls": cls, "gates": gates, "valid_for_class": True,
             "circ": V("qc", nreg=nreg, nclbits=nclbits, ops=ops),
             "layout": V("intlist", v=rng.choice([labels, list(range(n)), []])),
@@ -797,6 +801,60 @@ def sequence_oracle(rng, cls):
     return desc, None
 
 
+def multi_register_oracle(rng, cls):
+    """a valid circuit whose measurements go into bits of SEVERAL classical registers (bits of different registers share
+    their register-relative index): the result must still have exactly the 2^m keys of the m measured qubits, non-negative
+    values summing to 1.  Returns (description, failure)."""
+    import contextlib, io
+    from qiskit import QuantumCircuit, QuantumRegister, ClassicalRegister
+    from qgv import wiring as W
+    from quantum_gates._gates.gates import NoiseFreeGates
+    R = repo()
+    kind = {"BinaryCircuit": "binary", "Circuit": "grid", "StandardCircuit": "standard", "EfficientCircuit": "efficient",
+            "OneCircuit": "one"}[cls]
+    n = rng.randint(2, 4)
+    ops, labels = W.random_ops(rng, kind, n, rng.randint(3, 8))
+    body = [op for op in ops if op[0] not in ("measure", "barrier", "delay")]
+    if kind in ("grid", "standard") and not any(op[0] in ("cx", "ecr") for op in body):
+        body.append(["cx", labels[0], labels[1]])
+    nl = max(labels) + 1
+    m = rng.randint(2, n)
+    sizes = [rng.randint(1, 2) for _ in range(m)]                      # one small register per measured qubit
+    qr = QuantumRegister(nl, "q")
+    crs = [ClassicalRegister(sz, f"c{i}") for i, sz in enumerate(sizes)]
+    qc = QuantumCircuit(qr, *crs)
+    for op in body:
+        if op[0] == "rz":
+            qc.rz(op[2] * W.UNIT, op[1])
+        elif op[0] in ("sx", "x"):
+            getattr(qc, op[0])(op[1])
+        else:
+            getattr(qc, op[0])(op[1], op[2])
+    for q in labels:                                                   # every label is used
+        if not any(q in op[1:3] for op in body):
+            qc.sx(q)
+    measured = rng.sample(labels, m)
+    for q, cr in zip(measured, crs):
+        qc.measure(qr[q], cr[rng.randrange(len(cr))])
+    dp = W.tagged_params(nl - 1)
+    dp.update(T1=np.ones(nl), T2=np.ones(nl), dt=[1e-9])
+    psi0 = np.eye(1, 2 ** n)[0].astype(complex)
+    desc = {"cls": cls, "n": n, "body": body, "measured": measured, "register_sizes": sizes}
+    try:
+        with contextlib.redirect_stdout(io.StringIO()):
+            res = R.Sim(gates=NoiseFreeGates(), CircuitClass=R.classes[cls], parallel=False).run(
+                t_qiskit_circ=qc, qubits_layout=list(range(nl)), psi0=psi0, shots=1, device_param=dp, nqubit=n)
+    except Exception as e:                      # noqa
+        return desc, f"valid call (measurements into {m} classical registers) raised {type(e).__name__}: {str(e)[:100]}"
+    keys = {format(i, f"0{m}b") for i in range(2 ** m)}
+    if set(res) != keys or len(res) != 2 ** m:
+        return desc, f"measurements into {m} classical registers: keys are not the 2^{m} bit strings: {sorted(res)[:6]}"
+    vals = [float(v) for v in res.values()]
+    if any(v < -1e-15 or v != v for v in vals) or abs(math.fsum(vals) - 1) > 1e-9:
+        return desc, f"measurements into {m} classical registers: values are not a distribution (sum {math.fsum(vals)!r})"
+    return desc, None
+
+
 def main(ctx):
     lean = ctx.lean("QG.Props.C14")
     rng = ctx.rng
@@ -959,8 +1017,15 @@ def main(ctx):
             if bad:
                 seq_fail.append((desc, bad))
     ctx.coverage["simulator_reuse_sequences"] = (6 if th else 2) * len(CLASSES)
+    for cls in CLASSES:
+        for _ in range(6 if th else 2):
+            desc, bad = multi_register_oracle(rng, cls); ctx.count()
+            if bad:
+                seq_fail.append((desc, bad))
+    ctx.coverage["multi_register_circuits"] = (6 if th else 2) * len(CLASSES)
     for desc, bad in seq_fail[:1]:
-        ctx.violation({"kind": "simulator-reuse", "cls": desc["cls"]}, {"sequence": desc, "failure": bad}, f"{desc['cls']}: {bad}")
+        ctx.violation({"kind": "multi-register" if "register_sizes" in desc else "simulator-reuse", "cls": desc["cls"]},
+                      {"sequence": desc, "failure": bad}, f"{desc['cls']}: {bad}")
     # ---- decide
     fails = [(i, verdicts[i]) for i in range(len(cases)) if verdicts[i][1]]
     seen_sig = set()
